@@ -87,11 +87,24 @@ def cover_docs(tier, seed):
     return res
 
 
-def doc_units(tier, seed, hfile, fname, extra_args=()):
+def name_variants(doc, seed, cap=3):
+    """variants in which only NAME holes are symbolic (<= cap holes each); text holes get representatives"""
+    holes = K.hole_positions(doc)
+    idx = [i for i in range(len(holes)) if K.get_leaf(*holes[i])[1] == 'NAME']
+    if not idx:
+        return [K.variant(doc, set(), seed)]
+    return [K.variant(doc, set(idx[k:k + cap]), seed) for k in range(0, len(idx), cap)]
+
+
+def doc_units(tier, seed, hfile, fname, extra_args=(), names_only=False, stride=1, offset=0, blank_bias=False):
     docs, info = cover_docs(tier, seed)
+    info = dict(info)
     units = []
     for di, d in enumerate(docs):
-        for v in variants(d, seed * 7919 + di):
+        if stride > 1 and di % stride != offset % stride and di >= info['scenario_skeletons']:
+            continue
+        vs = name_variants(d, seed * 7919 + di) if names_only else variants(d, seed * 7919 + di)
+        for v in vs:
             units.append(dict(hfile=hfile, fname=fname, args=(v,) + tuple(extra_args), max_paths=20000))
     info['variants'] = len(units)
     return units, info
